@@ -111,6 +111,8 @@ class Kernel:
         self._line_gap = 0
         self.lines = 0
         self._spin = 0
+        self._budget = 0
+        self.hangs = []
         self._rr_last = 0
 
         # PCT
@@ -287,6 +289,7 @@ class Kernel:
     def step(self):
         self.steps += 1
         self._spin = 0
+        self._budget = 0
         if self.steps > self.max_steps:
             self.finish('inconclusive-steps')
 
@@ -474,23 +477,92 @@ class Kernel:
     TOOL_ID = 3
 
     def enable_line_preemption(self, codes):
+        self.enable_monitoring(preempt_codes=codes)
+
+    def enable_monitoring(self, preempt_codes=(), budget_codes=(),
+                          budget=200000):
+        """LINE events on the given code objects: pre-emption points (for
+        threads marked line_preempt) and/or a deterministic hang detector: more
+        than `budget` LINE events in the budget codes without reaching any
+        yield point raises HangDetected inside the spinning frame (and is
+        recorded, whatever the code under test does with the exception)."""
         mon = sys.monitoring
         try:
             mon.use_tool_id(self.TOOL_ID, 'sim-kernel')
         except ValueError:
             pass
         m = max(2, self.line_mean)
-        self._line_gap = 2 * m - self.tape.draw(2 * m)
+        if preempt_codes:
+            self._line_gap = 2 * m - self.tape.draw(2 * m)
+        pre = set(preempt_codes)
+        bud = set(budget_codes)
+        self._budget = 0
+        self._budget_limit = budget
 
         def cb(code, line):
+            if self.frozen:
+                return
             cur = self.current
-            if cur.line_preempt and not self.frozen \
-                    and cur.real is _rt.current_thread():
+            if cur.real is not _rt.current_thread():
+                return
+            if code in bud:
+                self._budget += 1
+                if self._budget > self._budget_limit:
+                    self._budget = 0
+                    self.probes['hang-budget-exceeded'] += 1
+                    self.hangs.append((cur.idx, code.co_name, line))
+                    raise HangDetected(f'{code.co_name}:{line}')
+            if cur.line_preempt and code in pre:
                 self.line_point()
 
         mon.register_callback(self.TOOL_ID, mon.events.LINE, cb)
-        for co in codes:
+        for co in pre | bud:
             mon.set_local_events(self.TOOL_ID, co, mon.events.LINE)
+
+
+class HangDetected(BaseException):
+    pass
+
+
+def code_objects(*modules_or_funcs):
+    """All code objects (recursively) defined in the given modules."""
+    import types
+    seen = {}
+
+    def walk(co):
+        if id(co) in seen:
+            return
+        seen[id(co)] = co
+        for c in co.co_consts:
+            if isinstance(c, types.CodeType):
+                walk(c)
+
+    def from_obj(o, modname):
+        if isinstance(o, types.FunctionType):
+            if o.__module__ == modname:
+                walk(o.__code__)
+        elif isinstance(o, (classmethod, staticmethod)):
+            from_obj(o.__func__, modname)
+        elif isinstance(o, property):
+            for f in (o.fget, o.fset, o.fdel):
+                if f is not None:
+                    from_obj(f, modname)
+        elif isinstance(o, type):
+            if o.__module__ == modname:
+                for v in list(vars(o).values()):
+                    from_obj(v, modname)
+
+    for mod in modules_or_funcs:
+        name = mod.__name__
+        for v in list(vars(mod).values()):
+            from_obj(v, name)
+        for t in list(vars(mod).values()):
+            if isinstance(t, type) and t.__module__ == name:
+                for meta in type(t).__mro__:
+                    if meta.__module__ == name:
+                        for v in list(vars(meta).values()):
+                            from_obj(v, name)
+    return list(seen.values())
 
 
 # ============================================================= primitives
